@@ -48,6 +48,75 @@ theorem getopt_render (os : Str) (opts : List OptW) (operands : List Str) (hwf :
         cluster, hk, Option.isSome_some, List.head?_cons, List.map_cons, OptW.tok, ne_eq, not_true_eq_false]
       rw [ih']
 
+/-- THE SCAN ITSELF: every way getopt(3) lets a sequence of options be written — each option a word of its own,
+    its argument detached or attached, flags clustered in front of the next option word, the options ended by
+    `--`, by the first word that is not option-like, or by the end of the command line — yields exactly that
+    sequence of options, in order, and the operands that follow -/
+theorem getopt_spelled (os : Str) {opts : List OptW} {ops ws : List Str} (h : Spelled os opts ops ws) :
+    getopt os ws = (opts.map OptW.tok, ops) := by
+  unfold getopt
+  induction h with
+  | dashdash ops => simp [getoptGo]
+  | empty => simp [getoptGo]
+  | stop a rest h =>
+    have h1 : a ≠ ['-', '-'] := h '-' []
+    rw [getoptGo]
+    · simp only [h1, if_false]
+      first | rfl | simp
+    · intro c cs e; exact h c cs e
+  | @flag ch opts ops ws hk hne _ ih =>
+    have h1 : (['-', ch] : Str) ≠ ['-', '-'] := by simp [hne]
+    simp only [getoptGo, h1, if_false, cluster, hk, ih, List.map_cons, OptW.tok]
+    rfl
+  | @sep ch a opts ops ws hk hne _ ih =>
+    have h1 : (['-', ch] : Str) ≠ ['-', '-'] := by simp [hne]
+    simp only [getoptGo, h1, if_false, cluster, hk, List.head?_cons, List.map_cons, OptW.tok, ne_eq,
+      not_true_eq_false]
+    rw [ih]
+    rfl
+  | @att ch a opts ops ws hk hne ha _ ih =>
+    have h1 : ('-' :: ch :: a : Str) ≠ ['-', '-'] := by simp [hne]
+    simp only [getoptGo, h1, if_false, cluster, hk, ha, ne_eq, not_false_eq_true, if_true, ih, List.map_cons,
+      OptW.tok]
+    simp
+  | @glue f w opts ops ws hk hne hw hw' _ ih =>
+    obtain ⟨c, cs, rfl⟩ := List.exists_cons_of_ne_nil hw
+    have h1 : ('-' :: f :: c :: cs : Str) ≠ ['-', '-'] := by simp [hne]
+    have h2 : ('-' :: c :: cs : Str) ≠ ['-', '-'] := by
+      intro e; apply hw'; simpa using e
+    rw [getoptGo] at ih
+    simp only [h2, if_false] at ih
+    rw [getoptGo]
+    simp only [h1, if_false]
+    have hc : cluster os (f :: c :: cs) ws.head? =
+        (Tok.opt f none :: (cluster os (c :: cs) ws.head?).1, (cluster os (c :: cs) ws.head?).2) := by
+      simp [cluster, hk]
+    simp only [hc, List.cons_append, List.map_cons, OptW.tok]
+    have ih1 := congrArg Prod.fst ih
+    have ih2 := congrArg Prod.snd ih
+    simp only at ih1 ih2
+    rw [ih1, ih2]
+
+
+/-- ... hence the SPELLING does not matter: two command lines that spell the same option sequence and operands
+    give the same result (accepted with the same settings, or refused alike), in every environment.
+    (`hearly`: the early pass scans with the same option string — repaired, or no module registers options.) -/
+theorem spelling_independent (fx : Fixes) (d : Defaults) (p : Pers) (env : Env) {opts : List OptW}
+    {ops ws ws' : List Str} (hearly : fx.early = true ∨ d.modOpts = [])
+    (h : Spelled (fullString d p) opts ops ws) (h' : Spelled (fullString d p) opts ops ws') :
+    effective fx d p env ws = effective fx d p env ws' := by
+  have hes : earlyString fx d p = fullString d p := by
+    unfold earlyString fullString
+    rcases hearly with he | he <;> simp [he]
+  unfold effective
+  rw [hes, getopt_spelled _ h, getopt_spelled _ h']
+
+example : Spelled (optstring .dsh) [⟨'N', none⟩, ⟨'b', none⟩, ⟨'f', some "3".toList⟩, ⟨'w', some "h".toList⟩]
+    ["cmd".toList] (["-Nbf3", "-w", "h", "cmd"].map String.toList) :=
+  .glue (by decide) (by decide) (by decide) (by decide)
+    (.glue (by decide) (by decide) (by decide) (by decide)
+      (.att (by decide) (by decide) (by decide) (.sep (by decide) (by decide) (.stop _ _ (by intro c cs e; simp at e)))))
+
 /-! ## precedence -/
 
 /-- PRECEDENCE (every variant of the code, every environment, every command line, every option order):
@@ -242,7 +311,8 @@ theorem rejected_partial {fx : Fixes} {d : Defaults} {p : Pers} {env : Env} {arg
   obtain ⟨c1, c3, he, ha, hp, hv⟩ := effective_ok_inv h
   obtain ⟨_, hr⟩ := postArgs_ok hp
   obtain ⟨_, _, _, a4, _, _, _⟩ := precedence h
-  unfold optVerify at hv
+  rw [optVerify_plain _ _ _ _ _ hplain.1 hplain.2] at hv
+  unfold optVerifyPlain at hv
   simp only [hplain.1, hplain.2, Bool.not_false, Bool.and_self, Bool.not_true, Bool.false_or,
     Bool.and_eq_true, decide_eq_true_eq] at hv
   refine ⟨hv.1.2.1.1.2, hv.1.2.1.2, ?_, hr⟩
@@ -280,7 +350,8 @@ theorem rejected {fx : Fixes} {d : Defaults} {p : Pers} {env : Env} {argv : List
   obtain ⟨c1, c3, he, ha, hp, hv⟩ := effective_ok_inv h
   obtain ⟨f, ct, ut, hf, hct, hut, _⟩ := optEnv_ok he
   obtain ⟨a1, a2, a3, _, _, _, _⟩ := precedence h
-  unfold optVerify at hv
+  rw [optVerify_plain _ _ _ _ _ hplain.1 hplain.2] at hv
+  unfold optVerifyPlain at hv
   simp only [hplain.1, hplain.2, hd4, Bool.not_false, Bool.and_self, Bool.not_true, Bool.false_or,
     Bool.and_eq_true, decide_eq_true_eq] at hv
   have cmdOk : ∀ ch a, lastArg ch (getopt (fullString d p) argv).1 = some a →
@@ -348,7 +419,8 @@ theorem never_hangs {fx : Fixes} {d : Defaults} {p : Pers} {env : Env} {argv : L
     (hd4 : fx.d4 = true) (h : effective fx d p env argv = .ok c)
     (hplain : c.pcpServer = false ∧ c.pcpClient = false) : c.fanout ≥ 1 ∧ runTerminates c = true := by
   obtain ⟨_, _, _, _, _, hv⟩ := effective_ok_inv h
-  unfold optVerify at hv
+  rw [optVerify_plain _ _ _ _ _ hplain.1 hplain.2] at hv
+  unfold optVerifyPlain at hv
   simp only [hplain.1, hplain.2, hd4, Bool.not_false, Bool.and_self, Bool.not_true, Bool.false_or,
     Bool.and_eq_true, decide_eq_true_eq] at hv
   have : c.fanout ≥ 1 := hv.1.2.2
@@ -504,7 +576,8 @@ theorem accepts_valid (fx : Fixes) (d : Defaults) (p : Pers) (env : Env) (opts :
   -- opt_verify
   have hver : optVerify fx d p c4 operands.length = true := by
     subst hc4
-    unfold optVerify
+    rw [optVerify_plain _ _ _ _ _ (by simpa using g2) (by simpa using g3)]
+    unfold optVerifyPlain
     simp only [g2, g3, g1, hwc, Bool.not_false, Bool.and_self, Bool.not_true, Bool.false_or, Bool.true_and,
       Bool.and_eq_true, Bool.or_eq_true, decide_eq_true_eq, Bool.not_eq_true', Bool.and_true]
     refine ⟨⟨?_, ⟨⟨hct0, hut0⟩, Or.inr hfan⟩⟩, ?_⟩
